@@ -307,19 +307,14 @@ Definition step (s : sys) (o : op) : result :=
       end
   | Flush id =>
       let d := rotate (s_db s) in
-      if negb (id =? 0) && existsb (N.eqb id) (all_ids (l_levels (s_db s))) then Bad 142
-      else Ok (set_db s (flush_oldest d id))
+      Ok (set_db s (flush_oldest d id))
   | Compact c out =>
       let ls := l_levels (s_db s) in
       let pc := pick_check ls c in
       if negb (pc =? 0) then Bad pc
       else
       let res := compaction_output ls c in
-      if negb (layout_ok ls c res) then Bad 140
-      else if negb (order_ok (c_order c)
-                     (let nl := drop_tables (c_bot c) (nth (c_next c) ls []) ++ split_counts res (c_layout c) in
-                      if (c_this c =? c_next c)%nat then drop_tables (c_top c) nl else nl)) then Bad 141
-      else if entries_eqb res out then
+      if entries_eqb res out then
         let ls' := apply_compaction ls c in
         if sorted_by_smallest (nth (c_next c) ls' []) || (length (nth (c_next c) ls' []) <=? 1)%nat
         then Ok (set_db s (mkLsm (l_mt (s_db s)) (l_imm (s_db s)) ls')) else Bad 3
@@ -332,12 +327,40 @@ Definition step (s : sys) (o : op) : result :=
   | MaxVersion v => if max_version (s_db s) =? v then Ok s else Bad 1
   end.
 
+(* the bookkeeping conditions the tree-level theorems assume about what the implementation
+   reports (fresh table ids, output layout covering the output exactly, the observed order a
+   permutation of the level); checked on every label by the correspondence *)
+Definition step_strict (s : sys) (o : op) : result :=
+  match o with
+  | Flush id =>
+      if negb (id =? 0) && existsb (N.eqb id) (all_ids (l_levels (s_db s))) then Bad 142 else step s o
+  | Compact c out =>
+      let ls := l_levels (s_db s) in
+      let res := compaction_output ls c in
+      if negb (pick_check ls c =? 0) then step s o
+      else if negb (layout_ok ls c res) then Bad 140
+      else if negb (order_ok (c_order c)
+                     (let nl := drop_tables (c_bot c) (nth (c_next c) ls []) ++ split_counts res (c_layout c) in
+                      if (c_this c =? c_next c)%nat then drop_tables (c_top c) nl else nl)) then Bad 141
+      else step s o
+  | _ => step s o
+  end.
+
 (* replay: index of the first disagreeing label, or None when the whole history is accepted *)
 Fixpoint exec (s : sys) (ops : list op) (i : N) : option (N * N) * sys :=
   match ops with
   | [] => (None, s)
   | o :: r => match step s o with
               | Ok s' => exec s' r (i + 1)
+              | Bad code => (Some (i, code), s)
+              end
+  end.
+
+Fixpoint exec_strict (s : sys) (ops : list op) (i : N) : option (N * N) * sys :=
+  match ops with
+  | [] => (None, s)
+  | o :: r => match step_strict s o with
+              | Ok s' => exec_strict s' r (i + 1)
               | Bad code => (Some (i, code), s)
               end
   end.
